@@ -63,8 +63,19 @@ def _method(name):
 _CLASSES = {}
 
 
-def make_element(states):
-    """A fresh instance of a fresh class with the attributes given by *states* (one per NAMES)."""
+def make_element(states, falsy=False):
+    """A fresh instance of a fresh class with the attributes given by *states* (one per NAMES).
+    With *falsy* the element is false in a boolean context (like an element derived from a container
+    that is empty when the adapter is made): an element is an object, whatever its truth value."""
+    if falsy:
+        cls = _CLASSES.get(("falsy",) + tuple(states))
+        if cls is None:
+            base = make_element(states).__class__
+            cls = type("FalsyKind", (base,), {"__bool__": lambda self: False})
+            _CLASSES[("falsy",) + tuple(states)] = cls
+        el = cls()
+        el.log = []
+        return el
     cls = _CLASSES.get(tuple(states))
     if cls is not None:
         el = cls()
@@ -122,6 +133,7 @@ _OBJECTS = {
     "FillRequest(Sum)": lambda: lena.core.FillRequest(__import__("lena.math").math.Sum(), reset=True,
                                                       buffer_input=True),
     "Sequence(abs)": lambda: lena.core.Sequence(abs),
+    "Sequence()": lambda: lena.core.Sequence(),          # an empty sequence has length 0
     "FillComputeSeq(abs,Sum)": lambda: lena.core.FillComputeSeq(abs, __import__("lena.math").math.Sum()),
 }
 OBJECT_NAMES = sorted(_OBJECTS)
@@ -138,6 +150,8 @@ def make(elspec):
     """A fresh element for a JSON-able element spec: a list of states or the name of a real object."""
     if isinstance(elspec, str):
         return make_object(elspec)
+    if isinstance(elspec, dict):
+        return make_element(elspec["states"], falsy=elspec.get("falsy", False))
     return make_element(elspec)
 
 
